@@ -30,7 +30,9 @@ RULE = (
     "properties) + 3 stock adsorbates, point / model / base isotherms (any unit configuration, generated metadata, "
     "extra columns, user branches) and 2-25 operations drawn from {material, adsorbate, property-type, isotherm-type, "
     "isotherm} x {to_db (duplicate / overwrite / overwrite-absent / with and without auto-insert), delete (by object, "
-    "name/id, retrieved object; absent; still referenced), *_from_db (with and without criteria)} x file. The history "
+    "name/id, retrieved object; absent; still referenced), *_from_db (with and without criteria)} x file; each "
+    "operation says whether it prefers an item present in / absent from the target file (resolved against the model "
+    "while interpreting, so that deletes, duplicates and criteria hit). The history "
     "is interpreted against the real store and against one plain dict model PER FILE (the model never looks at the "
     "process-global registries). After every step: outcome class (ok / ParsingError) == model; a refused call leaves "
     "the full logical dump of the target file unchanged; no other file changes (byte hash, then dump); through an "
@@ -41,7 +43,8 @@ RULE = (
     "Content mismatches are recorded and the history goes on (the model follows the observed outcome when a call "
     "predicted ok is refused), the first violation outside the known-finding classes is reported first. "
     "Non-trivial = history with >= 1 predicted-and-observed refusal and (>= 1 delete-then-reinsert of the same key or "
-    ">= 2 files written); distinct by the (op, file, item, flags, outcome) sequence."
+    ">= 2 files written); distinct by the (op, file, item, flags, outcome) sequence. Separate checks: the isotherm "
+    "property-type table alone (same interpreter), and bulk retrieval of 1..301 isotherms around the 100-row page size."
 )
 ASSUMPTIONS = [
     "'parsing error' = pygaps ParsingError; any other exception type escaping a store call is reported as a crash",
@@ -1241,6 +1244,59 @@ def check_iso_prop_types(desc, ctx):
     _run(desc, ctx, "isotherm_property_types")
 
 
+# ---- bulk retrieval: isotherms_from_db pages through the table 100 rows at a time ------------------------------------
+_BULK_UNITS = {"pressure_mode": "absolute", "pressure_unit": "bar", "loading_basis": "molar", "loading_unit": "mmol",
+               "material_basis": "mass", "material_unit": "g", "temperature_unit": "K"}
+
+
+def bulk_cases(tier, seed):
+    sizes = [1, 99, 100, 101, 200, 201] if tier == "quick" else [1, 2, 50, 99, 100, 101, 150, 199, 200, 201, 299, 300, 301]
+    return [{"n": n, "point_every": pe} for n in sizes for pe in (3, 7)]
+
+
+def check_bulk(desc, ctx):
+    """n isotherms (every k-th a point isotherm with its own data, the rest base isotherms) with distinct temperatures
+    and per-isotherm metadata in one file: all of them come back, each with ITS metadata and data, == the stored one.
+    (metadata carries an 'iso_type' key and float values only, so none of the known retrieval defects applies)"""
+    K.reset_registries()
+    workdir = tempfile.mkdtemp(prefix="verif_C08_case_", dir=_TMP_BASE)
+    try:
+        path = os.path.join(workdir, "bulk.db")
+        shutil.copyfile(_template()["path"], path)
+        stored = {}
+        for i in range(desc["n"]):
+            kw = dict(material="m-0", adsorbate="nitrogen", temperature=100.0 + i, k1=float(i) + 0.5, iso_type="bulk",
+                      **_BULK_UNITS)
+            if i % desc["point_every"] == 0:
+                iso = pygaps.PointIsotherm(pressure=[1.0 + i, 2.0 + i, 3.0 + i], loading=[0.5, 1.0 + i, 1.5 + i], **kw)
+            else:
+                iso = BaseIsotherm(**kw)
+            pgsql.isotherm_to_db(iso, db_path=path, verbose=False)
+            stored[100.0 + i] = iso
+        got = pgsql.isotherms_from_db(db_path=path, verbose=False)
+        temps = sorted(r._temperature for r in got)
+        if temps != sorted(stored):
+            missing = sorted(set(stored) - set(temps))
+            raise Violation(f"{desc['n']} isotherms stored in one file, isotherms_from_db returns {len(got)}; missing "
+                            f"temperatures {missing[:5]}, duplicates {len(temps) - len(set(temps))}", tag="bulk:set")
+        for r in got:
+            s = stored[r._temperature]
+            if type(r) is not type(s) or r.properties.get("k1") != s.properties["k1"] or not (r == s):
+                raise Violation(f"bulk retrieval of {desc['n']} isotherms: the isotherm at T={r._temperature} comes back as "
+                                f"{type(r).__name__} with metadata {r.properties} (stored: {type(s).__name__}, "
+                                f"{s.properties}) and == is {r == s}", tag="bulk:content")
+        d = _dump(path)
+        if d["fk"] or d["ic"] != [("ok",)] or len(d["isotherms"]) != desc["n"]:
+            raise Violation(f"bulk: raw file has {len(d['isotherms'])} isotherm rows for {desc['n']} uploads / pragma checks "
+                            f"{d['fk'][:2]} {d['ic'][:2]}", tag="bulk:raw")
+        ctx.label("bulk_pages_" + str((desc["n"] + 99) // 100))
+        if desc["n"] > 100:
+            ctx.nt([desc["n"], desc["point_every"]], desc)
+    finally:
+        shutil.rmtree(workdir, ignore_errors=True)
+        K.reset_registries()
+
+
 # =====================================================================================================================
 # known-finding predicates (narrow: violation tag + input class); see findings/pending/C08.json
 # =====================================================================================================================
@@ -1307,7 +1363,9 @@ def kf_branch_not_stored(check_name, desc, viol):
 
 
 def kf_material_from_registry(check_name, desc, viol):
-    return _only_known(_tag_causes(viol, _ISO_FAMS), "material_from_registry")
+    names = [it["name"] for it in desc["mats"]]
+    return _only_known(_tag_causes(viol, _ISO_FAMS), "material_from_registry") and (
+        desc["nfiles"] >= 2 or len(set(names)) < len(names))
 
 
 def kf_material_list_lost(check_name, desc, viol):
@@ -1346,10 +1404,13 @@ KNOWN_PREDICATES = [
 
 
 CHECKS = [
-    Check("histories", check_histories, strategy=strat_history, budget={"quick": 800, "thorough": 12000},
+    Check("histories", check_histories, strategy=strat_history, budget={"quick": 1000, "thorough": 14000},
           shrink_quick=False,
           rule="model-based histories of 2-25 store operations over 1-3 files (see RULE)"),
     Check("isotherm_property_types", check_iso_prop_types, strategy=strat_iso_prop_types,
           budget={"quick": 64, "thorough": 400}, shrink_quick=False,
           rule="upload / duplicate / overwrite / delete / delete-absent / read of isotherm property types vs a dict"),
+    Check("bulk_retrieval", check_bulk, mode="enum", cases=bulk_cases, exhaustive=False,
+          rule="1..301 isotherms in one file around the 100-row page size of isotherms_from_db: every one comes back "
+               "once, with its own metadata and data, == the stored one"),
 ]
